@@ -20,10 +20,12 @@ Theorem C08_code_has_the_protocol_shapes :
   mailbox_acts Answers_wait_for_answer = consumer_shape /\
   token_source_wf Answers_get_unique_token = true /\
   reload_wf HotReloader_reload = true /\
-  ptr_arm_wf hot_reloading_thread = true.
+  ptr_arm_wf hot_reloading_thread = true /\
+  (wait_while_wf Gen.Private.Condvar_wait_while = true /\
+   wait_while_wf Gen.Private.Condvar_wait_while_pl = true).
 Proof.
   exact (conj notify_is_producer (conj wait_for_answer_is_consumer (conj tokens_unique
-        (conj reload_is_caller thread_answers_each_ptr)))).
+        (conj reload_is_caller (conj thread_answers_each_ptr wait_while_loops))))).
 Qed.
 
 (* 2. No deadlock: for ANY number N of concurrent callers and ANY interleaving, as long as some
